@@ -70,9 +70,50 @@ def skipped_share(ctx):
                           True)
 
 
+def build_cli(ctx):
+    """Builds the command-line program of the tree under test (`go build ./cmd/srsim`, cwd = the
+    repository, output harness/bin/srsim) and hands its path to the harness through the
+    environment (CORR_SRSIM_BIN): the `clipool` component runs the REAL worker pool of
+    cmd/srsim/execute.go in that binary.  Built on every run, so an edit of the pool is in the
+    binary that is checked; nothing is written into the repository (-mod=readonly, -buildvcs=false,
+    output outside it)."""
+    M = sys.modules["__main__"]
+    binp = os.path.join(M.HARNESS, "bin", "srsim")
+    env = dict(M.ENV, GOFLAGS="-mod=readonly")
+    with M.Lock("go"):
+        try:
+            os.remove(binp)          # never run a binary left over from another tree
+        except OSError:
+            pass
+        rc, out = M.sh(["go", "build", "-buildvcs=false", "-o", binp, "./cmd/srsim"], cwd=M.REPO, timeout=1800, env=env)
+    if rc != 0 or not os.path.exists(binp):
+        raise M.Violation("build", "the command-line program (go build ./cmd/srsim) does not build", out[-4000:], True)
+    # tools/check.py run_corr() starts the harness with check.ENV
+    M.ENV["CORR_SRSIM_BIN"] = binp
+    # a child that hangs is killed by the component after 120 s (two children per case, run in parallel);
+    # the per-case limit of harness/cmd/corr/main.go must not fire first
+    M.ENV.setdefault("CORR_CASE_TIMEOUT_S", "300")
+    ctx.notes.append("clipool: srsim built from %s (%d bytes)" % (M.REPO, os.path.getsize(binp)))
+
+
+def clipool_skipped(ctx):
+    """A case whose reference (every job alone, in the harness process) already fails has nothing to
+    compare the pool with; if there are many of them the clipool search is void."""
+    M = sys.modules["__main__"]
+    k = ctx.corr.get("clipool", {}).get("op_kinds", {})
+    cases, sk = k.get("cases", 0), k.get("reference_failed", 0)
+    ctx.notes.append("clipool: %d cases (%d battles in the real pool), %d without a reference (skipped)" %
+                     (cases, k.get("jobs", 0), sk))
+    if cases == 0 or sk * 5 > cases:
+        raise M.Violation("search", "%d of %d generated command-line runs have no reference: a job run alone returns an "
+                          "error or panics, the real worker pool cannot be compared" % (sk, cases),
+                          "more than 20% of the generated configurations fail when their jobs are run alone in the harness "
+                          "process (simulation.Run with a fresh evaluator)", True)
+
+
 CONFIG = {
     "id": "C15",
-    "coq_targets": ["Props/C15.v", "Model/RunsCheck.v"],
+    "coq_targets": ["Props/C15.v", "Model/RunsCheck.v", "Model/CliPoolCheck.v"],
     "prop_files": ["Props/C15.v"],
     # Gen/Globals.v: package-level variables, writes to them, Register call sites (go2coq Globals)
     "gen": ["Globals"],
@@ -83,16 +124,39 @@ CONFIG = {
         # shrinking drops jobs from the order (input term IsoIn runs ORDER workers mode)
         "ops_path": ["a", 1],
         "n_quick": 60, "n_thorough": 1200, "shard": 30,
+    }, {
+        # the REAL worker pool of cmd/srsim/execute.go, in the srsim binary built by build_cli
+        "name": "clipool", "modules": ["Base.GlobalTypes", "Model.RunSpec", "Model.CliPoolCheck"],
+        "check": "check_case", "monitor": "monitor_case", "model_out": "model_out",
+        "case_type": "case",
+        # structural shrinking (characters, enemies, traces, relics of the run description)
+        "ops_path": None,
+        "mismatch_is_violation": True,
+        # every case = 2 child processes x 8-24 battles + the reference (about 0.2 s)
+        "n_quick": 12, "n_thorough": 200, "shard": 6,
     }],
-    "pre": [race_check],
-    "post": [skipped_share],
+    "pre": [build_cli, race_check],
+    "post": [skipped_share, clipool_skipped],
     "rule": "a case is a list of 1-3 runs (teams of 1-3 registered characters with generated builds, 1-5 dummy "
             "enemies, generated gcs script, seed; content.go/contentgen.go) and a job order in which every run occurs "
             "at least once and 1-3 extra jobs repeat runs; every run is executed alone in two fresh child processes, "
             "the jobs sequentially in the harness process (after all earlier cases) and through a pool of 2-4 worker "
             "goroutines; compared: status, event count, hash of the full event log (every field of every event), hash "
             "of the iteration result; plus 30 (quick) / 600 (thorough) job lists through the same pool under the Go "
-            "race detector; distinct = distinct input term",
+            "race detector; distinct = distinct input term. "
+            "clipool: a case is one run description (1-4 registered characters, cycle limit 1-3; seven eighths with "
+            "scripts whose ult / skill callbacks keep counters in script variables, call rand(), or assign built-in "
+            "constants, most characters starting with full energy, one enemy that outlives the battle), 8-24 iterations and 1-8 workers; the srsim binary "
+            "is BUILT FROM THE TREE UNDER TEST on every run (go build ./cmd/srsim) and run twice as "
+            "`srsim run --seed S --iterations N --workers W --no-serve --outpath <tmp> <config.json>` (W = 1 and the "
+            "generated W), i.e. through the real createPool / worker / start / processWorkerResult of "
+            "cmd/srsim/execute.go; reference in the harness process: job seeds drawn as pool.start draws them "
+            "(rand.New(rand.NewSource(S)), one Int63 per iteration), every job run ALONE through simulation.Run with a "
+            "fresh evaluator, aggregated with simulation.InitializeAggregators / Add / Flush; compared per run: exit "
+            "status 0 and, from result.gz, the seed echo, the iteration count, min / max / mean / SD of total damage "
+            "dealt, taken and AV, min / max / mean / SD / quartiles / histogram counts of damage per cycle and of every "
+            "element of the two per-cycle series and the series' lengths -- bit-exactly, except mean and SD up to 1e-9 "
+            "relative to the magnitude of the data (arrival order; C19)",
     "trusted": ["the Go memory model is not modelled: interleaving_invariance is about interleavings of atomic steps; "
                 "data races are searched for with the Go race detector on the real worker-pool shape, not proved absent",
                 "go2coq Globals (go/parser + go/types, own over-approximate call graph: every mention of a function is "
@@ -108,7 +172,18 @@ CONFIG = {
                 "and counted; the check fails when more than 20% of the runs are skipped",
                 "in the concurrent part every run gets the same demultiplexing logger (events routed by emitting "
                 "goroutine) because of the known finding on logging.loggers; interference through anything else still "
-                "changes the per-run log"],
+                "changes the per-run log",
+                "clipool: the command-line binary is built from the tree under test by the check itself (pre hook, "
+                "go build ./cmd/srsim) and run as a child process; the Go toolchain, the operating system's process "
+                "handling and the CLI's own config path (YAML -> JSON -> protojson) and result writer (protojson, gzip) "
+                "are trusted to carry the numbers (binary64 values survive protojson's shortest round-trip text "
+                "exactly); the reference is computed by the harness from the exported API (simulation.Run, eval.New, "
+                "InitializeAggregators / Add / Flush) with the seed rule READ from cmd/srsim/execute.go -- a change of "
+                "that rule in the source makes the check fail rather than follow it; per-job results are not visible "
+                "from outside the binary, only the aggregated statistics are compared (a defect that changes single "
+                "jobs but leaves every compared statistic unchanged is not seen); NOT covered: the HTTP server pool of "
+                "pkg/servermode (it draws its job seeds from the process-wide, randomly seeded math/rand source and its debug seed from crypto/rand: its results are not reproducible from outside) and the "
+                "wasm entry point"],
     "assumptions": ["a run's loggers are not shared with a concurrently executing run by the caller (the finding is "
                     "that the engine shares them itself)"],
     "manifest": {
@@ -119,12 +194,16 @@ CONFIG = {
                       "variable, every write to one outside init, reachability from the run entry points, every "
                       "Register call site) against a reviewed allow table. What is explored rather than proved: the "
                       "real simulation.Run alone in fresh processes vs. as k-th run vs. in a worker pool (result and "
-                      "full event log compared), and the real worker pool under the Go race detector. The shared "
+                      "full event log compared), and the real worker pool under the Go race detector; and the REAL worker pool of the command-line program "
+                      "(cmd/srsim/execute.go), in the srsim binary built from the tree under test: its aggregated "
+                      "statistics for 8-24 iterations, with 1 and with 1-8 workers, against every job run alone with a "
+                      "fresh evaluator (not covered: the HTTP server pool of pkg/servermode, whose seeds are random). The shared "
                       "logger list is a recorded finding (refuted + partial theorems).",
         "level_note": "Coq kernel (no axioms); go2coq site table with documented over-approximate call graph; Go race "
                       "detector; the Go memory model itself is outside the model.",
         "technique": "Coq proof (induction over schedules; computation over the generated site table) + differential "
-                     "search on the implementation (fresh process / sequential / worker pool) + race detector",
+                     "search on the implementation (fresh process / sequential / worker pool / the command-line binary's own "
+                     "pool against a job-by-job reference) + race detector",
         "design_ref": "DESIGN.md section 7, C15",
     },
 }
